@@ -7,12 +7,16 @@ package main
 
 import (
 	"bufio"
+	"encoding/hex"
 	"fmt"
 	"os"
 	"strconv"
 	"strings"
 	"syscall"
 	"testing"
+	"time"
+
+	"github.com/newrelic/newrelic-php-agent/daemon/internal/newrelic/config"
 )
 
 var verifMainEngines = map[string]func([]string) string{}
@@ -86,5 +90,140 @@ func init() {
 			return "respawn=0"
 		}
 		return "bad-op"
+	}
+}
+
+// ---- engines flags / cfg (C19) and argv (C14) ------------------------------------------------------
+
+func vUnhexS(s string) string {
+	if s == "-" || s == "" {
+		return ""
+	}
+	b, _ := hex.DecodeString(s)
+	return string(b)
+}
+
+func vHexS(s string) string {
+	if s == "" {
+		return "-"
+	}
+	return hex.EncodeToString([]byte(s))
+}
+
+var verifCfgCounter int
+
+func init() {
+	verifMainEngines["cfg"] = func(w []string) string {
+		if len(w) < 3 || (w[1] != "lex" && w[1] != "fuzz") {
+			return "bad-op"
+		}
+		var v struct {
+			K1 string `config:"k1"`
+			K2 string `config:"k2"`
+			K3 string `config:"k3"`
+			K4 string `config:"k4"`
+			K5 string `config:"k5"`
+			K6 string `config:"k6"`
+		}
+		mark := "\x00unset\x00"
+		v.K1, v.K2, v.K3, v.K4, v.K5, v.K6 = mark, mark, mark, mark, mark, mark
+		done := make(chan error, 1)
+		go func() {
+			defer func() {
+				if r := recover(); r != nil {
+					done <- fmt.Errorf("PANIC")
+				}
+			}()
+			done <- config.ParseString(vUnhexS(w[2]), &v)
+		}()
+		var err error
+		select {
+		case err = <-done:
+		case <-time.After(5 * time.Second):
+			return "stuck"
+		}
+		if err != nil && err.Error() == "PANIC" {
+			return "panic"
+		}
+		if w[1] == "fuzz" {
+			return "done" // arbitrary bytes: only "neither panics nor hangs" is judged
+		}
+		out := "ok"
+		if err != nil {
+			out = "err"
+		}
+		for _, x := range []string{v.K1, v.K2, v.K3, v.K4, v.K5, v.K6} {
+			if x == mark {
+				out += " -"
+			} else if x == "" {
+				out += " -"
+			} else {
+				out += " " + hex.EncodeToString([]byte(x))
+			}
+		}
+		return out
+	}
+
+	verifMainEngines["flags"] = func(w []string) string {
+		if len(w) < 3 || w[1] != "parse" {
+			return "bad-op"
+		}
+		fileTok := "-"
+		var args []string
+		for _, x := range w[2:] {
+			switch {
+			case strings.HasPrefix(x, "file="):
+				fileTok = x[5:]
+			case strings.HasPrefix(x, "want:"):
+			default:
+				args = append(args, vUnhexS(x))
+			}
+		}
+		verifCfgCounter++
+		path := fmt.Sprintf("%s/verif-cfg-%d-%d", os.TempDir(), os.Getpid(), verifCfgCounter)
+		if fileTok != "-" && fileTok != "missing" {
+			os.WriteFile(path, []byte(vUnhexS(fileTok)), 0600)
+			defer os.Remove(path)
+		}
+		for i := range args {
+			args[i] = strings.Replace(args[i], "@CFG@", path, -1)
+		}
+		// the control flow of configure(), minus its os.Exit paths (an exit is the outcome "error")
+		cfg := defaultCfg
+		legacy, warn := false, false
+		fs := createDaemonFlagSet(&cfg)
+		err := fs.Parse(args)
+		_, isWarning := err.(*daemonFlagWarning)
+		if err != nil && !isWarning {
+			cfg = defaultCfg
+			legacy = true
+			lfs := createLegacyFlagSet(&cfg)
+			if err := lfs.Parse(args); err != nil {
+				return "error"
+			}
+			if err := parseConfigFile(&cfg); err != nil {
+				return "error"
+			}
+			lfs.Parse(args)
+		} else if err != nil && isWarning {
+			warn = true
+		}
+		b := func(x bool) string {
+			if x {
+				return "74727565" // "true"
+			}
+			return "66616c7365"
+		}
+		bi := func(x bool) int {
+			if x {
+				return 1
+			}
+			return 0
+		}
+		// the config-file path is not part of the comparison (it differs between the two sides)
+		return fmt.Sprintf("ok legacy=%d warn=%d port=%s address=%s proxy=%s pidfile=%s logfile=%s loglevel=%s auditlog=%s cafile=%s capath=%s aws=%s maxfiles=%s fg=%s pprof=%s nopid=%s agent=%s",
+			bi(legacy), bi(warn), vHexS(cfg.BindPort), vHexS(cfg.BindAddr), vHexS(cfg.Proxy), vHexS(cfg.Pidfile), vHexS(cfg.LogFile), vHexS(strings.ToLower(cfg.LogLevel.String())),
+			vHexS(cfg.AuditFile), vHexS(cfg.CAFile), vHexS(cfg.CAPath), b(cfg.DetectAWS), vHexS(strconv.FormatUint(cfg.MaxFiles, 10)), b(cfg.Foreground),
+			vHexS(strconv.Itoa(cfg.PProfPort)), b(cfg.NoPidfile), b(cfg.Agent))
 	}
 }
